@@ -79,6 +79,8 @@ Plan tostring_generate(uint64_t base, const std::string &prop, uint64_t index, i
     p.par["pre"] = pre;
     if (rd.chance(1, 4)) p.par["locale"] = 1;       // the application runs under a locale other than "C"
     p.par["only_cap"] = -1;
+    { Rng rl = r.fork("layout"); if (rl.chance(1, 2)) p.par["lead"] = 1 + (int64_t)rl.below(15); }     // the message does not start on an allocator boundary
+
     p.faults.push_back("F5:every_capacity");
     return p;
 }
@@ -89,6 +91,7 @@ Result tostring_execute(const Plan &p, const ExecCtx &c) {
     Trace tr; tr.verbose = c.verbose;
     Sink sink; sink.own = c.prop; sink.cnt = &r.cnt;
     PSession ps(tr, sink, r.cnt);
+    ps.lead = (int)p.P("lead");
     ps.setup(p.max_depth, p.prefill, p.doc, p.root != 0);
     int64_t nice = p.P("nice", 0);
     int pre = (int)p.P("pre");
